@@ -357,9 +357,9 @@ PROPS["C12"] = {
         H("c12::c12_seq_raw_roundtrip_a1_s3_m7", covers=1, timeout=1500, mem_gb=8,
           what="raw store / publish / load round trip twice, arbitrary bytes; alignment 1, size 3, raw memory misaligned by 7",
           bounds="unwind 14; 2 stores; concrete size/alignment/misalignment"),
-        H("c12::c12_seq_raw_roundtrip_a4_s12_m5", covers=1, timeout=1500, mem_gb=8,
+        H("c12::c12_seq_raw_roundtrip_a4_s12_m5", covers=1, timeout=1500, mem_gb=16,
           what="same; alignment 4, size 12, misaligned by 5", bounds="unwind 14; 2 stores"),
-        H("c12::c12_seq_raw_roundtrip_a8_s8_m1", covers=1, timeout=1500, mem_gb=8,
+        H("c12::c12_seq_raw_roundtrip_a8_s8_m1", covers=1, timeout=1500, mem_gb=12,
           what="same; alignment 8, size 8, misaligned by 1", bounds="unwind 14; 2 stores"),
         H("c12::sched::c12_s_reader_outer", crate="hs", covers=3, timeout=1800, mem_gb=10, tiers=("quick",),
           what="reader preempted at every shared operation and in the middle of its copy; writer runs complete stores: "
@@ -413,13 +413,13 @@ PROPS["C19"]["harnesses"] += [
     H("cal::c19iso::c19_path_for_shape", features=CAL, covers=0, timeout=2400, mem_gb=14, tiers=("quick",),
       what="NamedConceptConfiguration::path_for produces exactly <root>/<prefix><name><suffix> (lies under the root)",
       bounds=_ISO_B),
-    H("cal::c19iso::c19_cross_domain_direct", features=CAL, covers=2, timeout=2400, mem_gb=14, tiers=("quick",),
+    H("cal::c19iso::c19_cross_domain_direct", features=CAL, covers=2, timeout=2400, mem_gb=22, tiers=("quick",),
       what="extract_name_from_file: a name round-trips through its own domain; a domain with an unrelated prefix or a "
            "different suffix never extracts a name from the file", bounds=_ISO_B),
-    H("cal::c19iso::c19_cross_domain_direct_mixed_len", features=CAL, covers=2, timeout=2400, mem_gb=14, tiers=("quick",),
+    H("cal::c19iso::c19_cross_domain_direct_mixed_len", features=CAL, covers=2, timeout=2400, mem_gb=22, tiers=("quick",),
       what="same with prefixes of different length (1 and 2 bytes): non-interference whenever neither prefix is a "
            "prefix of the other", bounds="unwind 12; prefix lengths 1/2, names of 2 bytes"),
-    H("cal::c19iso::c19_cross_domain_direct_prefix_of_prefix", features=CAL, covers=0, timeout=2400, mem_gb=14,
+    H("cal::c19iso::c19_cross_domain_direct_prefix_of_prefix", features=CAL, covers=0, timeout=2400, mem_gb=20,
       tiers=("quick",), known="F-C19-1",
       what="the class excluded above: one prefix is a proper prefix of the other (open known finding F-C19-1)",
       bounds="unwind 12; prefix lengths 1/2, names of 2 bytes"),
